@@ -77,6 +77,7 @@ type c07Case struct {
 	Ctx      string    `json:"ctx,omitempty"`   // "" | deadline | timeout | cancelled | cancelat | custom (an own Context implementation, done at CtxAt, Err() an own error)
 	Cause    string    `json:"cause,omitempty"` // the context is ended WITH A CAUSE (WithCancelCause / WithDeadlineCause / WithTimeoutCause; custom: an own implementation that is a child of a WithCancelCause context): own | eof | val | unc | noout | cwn | canceled | deadline | nil
 	Wrap     string    `json:"wrap,omitempty"`  // what is handed to WithContext is a descendant of that context: "" | child (WithCancel) | value (WithValue) | own (own implementation delegating to it)
+	DoneD    []int     `json:"dd,omitempty"`    // own Context (custom, no cause, never due): its first len(DoneD) calls of Done() take that many ms (virtual) — the caller evaluates ctx.Done() when it enters its select, AFTER it has started the pipeline
 	Src      string    `json:"src,omitempty"`   // MapReduceChan only: "" unbuffered, fed by a goroutine | prefilled (buffered, filled and closed before the call)
 	CtxAt    int       `json:"at,omitempty"`    // ticks
 	Count    int       `json:"count,omitempty"` // > len(Items): the item list is Items repeated cyclically up to Count items (big inputs from a small description)
@@ -579,6 +580,10 @@ type c07Ctx struct {
 	once sync.Once
 	done chan struct{}
 	err  atomic.Value
+	// a Done method that takes its time (e.g. builds its channel lazily behind a
+	// lock): the first len(slow) calls sleep
+	slow  []time.Duration
+	calls int32
 }
 
 var errC07Ctx = fmt.Errorf("c07: own context is done")
@@ -590,8 +595,13 @@ func (c *c07Ctx) finish() {
 	})
 }
 func (c *c07Ctx) Deadline() (time.Time, bool) { return time.Time{}, false }
-func (c *c07Ctx) Done() <-chan struct{}       { return c.done }
-func (c *c07Ctx) Value(any) any               { return nil }
+func (c *c07Ctx) Done() <-chan struct{} {
+	if n := int(atomic.AddInt32(&c.calls, 1)); n <= len(c.slow) && c.slow[n-1] > 0 {
+		time.Sleep(c.slow[n-1])
+	}
+	return c.done
+}
+func (c *c07Ctx) Value(any) any { return nil }
 func (c *c07Ctx) Err() error {
 	if e := c.err.Load(); e != nil {
 		return e.(error)
@@ -954,6 +964,9 @@ func (r *c07Run) horizon() time.Duration {
 		}
 	}
 	add(c.ticks(c.GenTail), 1)
+	for _, d := range c.DoneD {
+		add(time.Duration(d)*c07Tick, 1)
+	}
 	add(c.ticks(c.Red.D0), 1)
 	if c.CtxAt < c07Far {
 		add(c.ticks(c.CtxAt), 1)
@@ -1050,6 +1063,9 @@ func (r *c07Run) run() {
 			break
 		}
 		cu := &c07Ctx{done: make(chan struct{})}
+		for _, d := range c.DoneD {
+			cu.slow = append(cu.slow, time.Duration(d)*c07Tick)
+		}
 		ctx, ctxCancel = cu, cu.finish
 		atInstant(func() {
 			if uc {
@@ -1321,6 +1337,9 @@ func (r *c07Run) judge(res kit.BubbleResult) (v kit.Verdict) {
 	}
 	if (c.Entry == "mr" || c.Entry == "chan") && c.Red.Early+c.Red.Late > 0 {
 		cls[c07ResultClass(c.Red.RV)] = true
+	}
+	if len(c.DoneD) > 0 && c.Ctx == "custom" && c.Cause == "" {
+		cls["ctx:slow-Done"] = true
 	}
 	if c.Entry == "chan" && c.Src == "prefilled" {
 		cls["chan-source:prefilled"] = true
@@ -1793,6 +1812,27 @@ func (r *c07Run) disturbedOutcome(dist []c07Event, cls map[string]bool) string {
 		}
 	}
 	outputFirst := le > 0 || (hasRet && rret <= first)
+	// Causal order beats equal timestamps: a reducer that ranges over its whole input
+	// and only then writes / returns does so after the pipe was closed, i.e. after every
+	// mapper had finished (or panicked) and the generator had returned (or panicked).
+	// When all the disturbing events are such panics, a result or return at the very
+	// instant of the first panic is AFTER it, not tied with it: "a panic in the
+	// generator or a mapper is re-raised in the calling goroutine".
+	if c.hasReducer() && c.Red.Take < 0 && c.Red.Early == 0 {
+		onlyUpstreamPanics := true
+		for _, e := range dist {
+			if e.kind != "panic" || e.src == "reducer" {
+				onlyUpstreamPanics = false
+			}
+		}
+		if onlyUpstreamPanics {
+			if outputFirst && lt == 0 && !(hasRet && rret < first) {
+				cls["result-causally-after-panic"] = true
+			}
+			le = lt
+			outputFirst = lt > 0 || (hasRet && rret < first)
+		}
+	}
 	if !c.hasReducer() {
 		outputFirst = false
 	}
@@ -2079,12 +2119,22 @@ func c07Gen(zero bool) func(rt *rapid.T) c07Case {
 					c.CtxAt = mag("at", c07Pick(rt, "at", 0, 1, 2, 3, 4, 6, 9, 15, 40))
 				}
 			}
+			if c.Ctx == "" && !fin && rapid.IntRange(0, 3).Draw(rt, "ctxfar2") == 0 {
+				// disturbed otherwise, with a context that is never due (see slowdone below)
+				c.Ctx, c.CtxAt = "custom", c07Far
+			}
 		} else if !fin && rapid.IntRange(0, 5).Draw(rt, "ctxfar") == 0 {
 			// a context that is handed over but never done while the call runs
 			c.Ctx = rapid.SampledFrom([]string{"deadline", "cancelat", "custom", "timeout"}).Draw(rt, "ctx")
 			c.CtxAt = c07Far
 		}
-		if c.Ctx != "" {
+		if c.Ctx != "" && c.CtxAt == c07Far && rapid.IntRange(0, 2).Draw(rt, "slowdone") == 0 {
+			// an own Context, never due, whose first two Done() calls are slow: whichever
+			// of the caller and the dispatcher calls second starts first — the pipeline
+			// may be over before the caller has entered its select
+			c.Ctx, c.Cause, c.Wrap = "custom", "", ""
+			c.DoneD = []int{c07Pick(rt, "dd0", 2, 1, 0, 5), c07Pick(rt, "dd1", 1, 2, 0, 5)}
+		} else if c.Ctx != "" {
 			// the family of contexts: ended with a cause, and / or a descendant handed over
 			if rapid.IntRange(0, 2).Draw(rt, "hascause") == 0 {
 				ckinds := []string{"own", "eof", "nil", "canceled", "deadline", "val", "unc", "noout", "cwn"}
@@ -2125,13 +2175,23 @@ func c07GenStorm(rt *rapid.T) c07Case {
 			c.Red.A = "panic"
 			c.Items = []c07Item{{W: 1}}
 		}
-	case 2:
+	case 2, 3:
 		if c.Entry == "mr" || c.Entry == "chan" {
 			c.Red.Late = 1
 			c.Red.RV = rapid.SampledFrom([]string{"", "nil", "nilptr", "slice"}).Draw(rt, "rv")
 		}
 	}
+	if c.hasReducer() && rapid.Bool().Draw(rt, "slowdone") {
+		c.Ctx, c.CtxAt = "custom", c07Far
+		c.DoneD = []int{c07Pick(rt, "dd0", 2, 1), c07Pick(rt, "dd1", 1, 2)}
+	}
 	c.Reps = rapid.IntRange(100, 300).Draw(rt, "reps")
+	if c.Red.Late > 0 {
+		// a result written after an upstream panic: the caller must find the pending
+		// panic although a value is ready too; the window (everything is over before the
+		// caller reaches its select) is narrow, so these cases are repeated more often
+		c.Reps *= 4
+	}
 	return c
 }
 
